@@ -23,8 +23,11 @@ var (
 
 // template builds one valid frame aimed at a live target and returns the
 // offsets of the fields parsers trust.
+var lastTemplate string
+
 func template(rt *rapid.T) (Frame, []int) {
 	kind := rapid.SampledFrom([]string{"tcp-syn", "tcp-est", "tcp-est", "tcp-est6", "udp", "udp6", "udp-conn", "echo4", "echo6", "icmp4-err", "icmp6-err", "ndp", "arp", "frag4", "frag6", "noise"}).Draw(rt, "template")
+	lastTemplate = kind
 	v4 := func(proto uint8, l4 []byte) []byte {
 		return codec.BuildIPv4(codec.IPv4Hdr{Src: b4, Dst: a4, Proto: proto, ID: uint16(rapid.IntRange(0, 3).Draw(rt, "ipid"))}, l4)
 	}
@@ -86,10 +89,12 @@ func template(rt *rapid.T) (Frame, []int) {
 	case "icmp4-err":
 		// destination unreachable / fragmentation needed quoting a segment of the live connection (as sent by the stack)
 		inner := codec.BuildIPv4(codec.IPv4Hdr{Src: a4, Dst: b4, Proto: codec.ProtoTCP}, codec.BuildTCP(a4, b4, codec.TCPSeg{SrcPort: portListen, DstPort: 50000, Flags: codec.ACK}))
-		n := rapid.IntRange(0, len(inner)).Draw(rt, "quote")
-		body := append([]byte{0, 0, byte(rapid.SampledFrom([]int{0, 2, 5}).Draw(rt, "mtuhi")), byte(rapid.IntRange(0, 255).Draw(rt, "mtulo"))}, inner[:n]...)
+		n := rapid.OneOf(rapid.Just(len(inner)), rapid.Just(28), rapid.IntRange(0, len(inner))).Draw(rt, "quote")
+		// next-hop MTU: boundary values around the header sizes as well as ordinary ones
+		mtu := rapid.OneOf(rapid.SampledFrom([]int{0, 1, 19, 20, 21, 40, 41, 48, 52, 53, 68, 296, 552, 576, 1280, 1499, 1500, 65535}), rapid.IntRange(0, 65535)).Draw(rt, "nexthop-mtu")
+		body := append([]byte{0, 0, byte(mtu >> 8), byte(mtu)}, inner[:n]...)
 		m := make([]byte, 4+len(body))
-		m[0], m[1] = 3, byte(rapid.SampledFrom([]int{0, 1, 3, 4, 4, 13}).Draw(rt, "code"))
+		m[0], m[1] = 3, byte(rapid.SampledFrom([]int{0, 1, 3, 4, 4, 4, 13}).Draw(rt, "code"))
 		copy(m[4:], body)
 		binary.BigEndian.PutUint16(m[2:], ^codec.Sum1071(m, 0))
 		return Frame{P: codec.EtherIPv4, B: hex.EncodeToString(v4(codec.ProtoICMP, m))}, append(ipv4Fields, 20, 21, 24, 26, 27, 28, 30, 31, 37, 48, 50)
@@ -134,6 +139,7 @@ func template(rt *rapid.T) (Frame, []int) {
 
 func genFrame(rt *rapid.T) Frame {
 	f, fields := template(rt)
+	f.K = lastTemplate
 	b, _ := hex.DecodeString(f.B)
 	nm := rapid.SampledFrom([]int{0, 1, 1, 1, 2, 3}).Draw(rt, "nmut")
 	for i := 0; i < nm && len(b) > 0; i++ {
@@ -166,6 +172,18 @@ func genCase(rt *rapid.T) Case {
 	var c Case
 	for i := 0; i < n; i++ {
 		c.Frames = append(c.Frames, genFrame(rt))
+	}
+	// linger (see Case.LingerMs) mostly when something was aimed at the live connection
+	aimed := false
+	for _, f := range c.Frames {
+		if f.Rel || f.K == "icmp4-err" || f.K == "icmp6-err" {
+			aimed = true
+		}
+	}
+	// (decided by a hash of the frames: rapid's integer draws are biased towards
+	// small values and would linger in a third of the cases)
+	if h := evid.Hash64(fmt.Sprintf("%v", c.Frames)) % 80; h < map[bool]uint64{true: 5, false: 1}[aimed] {
+		c.LingerMs = 1500
 	}
 	return c
 }
@@ -238,7 +256,17 @@ func runMutOnce(c Case) *evid.Failure {
 	for _, f := range c.Frames {
 		w.Inject(f)
 	}
+	if c.LingerMs > 0 {
+		if c.LingerMs > 3000 {
+			c.LingerMs = 3000
+		}
+		time.Sleep(time.Duration(c.LingerMs) * time.Millisecond)
+		evid.Label("barrage:lingered-before-probes")
+	}
 	reached := st.IP.PacketsDelivered.Value() > b0 || st.TCP.ValidSegmentsReceived.Value() > b1 || st.UDP.PacketsReceived.Value() > b2
+	// let queues filled by floods drain: the probes ask whether the stack serves
+	// afterwards, and a probe dropped by a still-full queue costs a 1.5 s retry
+	w.Env.Tap.Quiesce(2*time.Millisecond, 300*time.Millisecond)
 	fail := w.Probe()
 	evid.LabelN("frames", int64(len(c.Frames)))
 	if reached && fail == nil {
